@@ -175,6 +175,7 @@ def free_run(rng: random.Random, idx: int, n_threads: int):
     classes = list(graph)
     ctl = sched.Controller(keymap, None)
     ctl.yield_lazy = True
+    ctl.only_checker = "DeserializationRecursiveChecker"
 
     def sample(cls, depth=2):
         out = {}
@@ -195,9 +196,20 @@ def free_run(rng: random.Random, idx: int, n_threads: int):
         first = rng.choice(classes)
         plan = {t: [first] + [c for c in cs if c != first] for t, cs in plan.items()}
 
+    from apischema import serialize
+
+    def calls(names):
+        """deserialize, then serialize the result through the typed method and through the Any method
+        (serialize(obj) dispatches on the runtime class: one shared AnyMethod per option vector)."""
+        out = []
+        for c in names:
+            obj = deserialize(getattr(mod, c), sample(c))
+            out += [repr(obj), repr(serialize(obj)), repr(serialize(getattr(mod, c), obj)), repr(serialize([obj, 1]))]
+        return out
+
     def body(names):
         def run():
-            return [repr(deserialize(getattr(mod, c), sample(c))) for c in names]
+            return calls(names)
         return run
 
     with sched.Installed(ctl) as inst:
@@ -208,7 +220,7 @@ def free_run(rng: random.Random, idx: int, n_threads: int):
     import apischema.cache
 
     apischema.cache.reset()
-    baseline = {t: [repr(deserialize(getattr(mod, c), sample(c))) for c in cs] for t, cs in plan.items()}
+    baseline = {t: calls(cs) for t, cs in plan.items()}
     apischema.cache.reset()
     problems = []
     for t, (kind, val) in results.items():
